@@ -144,11 +144,13 @@ int ubuf_sound_common_plane_map(struct ubuf *ubuf, const char *channel,
     /* Check offsets. */
     if (offset < 0)
         offset = common->size + offset;
+    if (unlikely(offset < 0 || offset > (int)common->size))
+        return UBASE_ERR_INVALID;
 
     /* Check sizes - we don't actually use them. */
     if (size < 0)
         size = common->size - offset;
-    else if (unlikely(size > common->size - offset))
+    else if (unlikely(size > (int)common->size - offset))
         return UBASE_ERR_INVALID;
 
     if (likely(buffer_p != NULL))
